@@ -11,18 +11,28 @@ import Blue.Proofs.SstCut
 import Blue.Proofs.SstMeta
 import Blue.Proofs.SstRoundtrip
 import Blue.Proofs.SstBytes
+import Blue.Proofs.SstAccept
+import Blue.Proofs.SstWf
+import Blue.Proofs.SstFileB
+import Blue.Proofs.BlockEmpty
+import Blue.Proofs.SstFits
+import Blue.Proofs.SstHeadline
 import Blue.Proofs.ConstsTieC10
 /-! # Property C10 — an SST or block returns exactly what was put in, under every cursor movement
 
 Property theorems only (helper lemmas live in `Blue/Proofs/{Wire,EntryCodec,Block,BlockRestarts,
-BlockCursor,BlockSeal,SstCur,SstDivide}.lean`).
+BlockCursor,BlockSeal,BlockEmpty,SstCur,SstDivide,SstCut,SstAccept,SstWf,SstFits,SstFile*,SstRoundtrip,
+SstHeadline}.lean`).
 
 The models: `Blue/Model/{Wire,EntryCodec,Block}.lean` (entry messages, `BlockBuilder` with prefix
 compression and the restart policy by bytes and pairs), `Blue/Model/BlockSeal.lean` (the builder's
 accept/refuse decision, `seal`'s footer, `Block::new`, bytes → decoded block),
 `Blue/Model/BlockCursor.lean` (`BlockCursor` over a decoded block), `Blue/Model/SstCur.lean`
 (`SstCursor`), `Blue/Model/SstBuild.lean` (`SstBuilder`, `SstMultiBuilder`, `divide_keys`,
-`minimal_successor_key`, file layout, `Sst::{load, metadata}`).  The correspondence check compares
+`minimal_successor_key`, file layout, `Sst::{load, metadata}`), `Blue/Model/{SstOpen,SstFile}.lean`
+(`Sst::new` / `Sst::load_block` / `SstCursor` over a file's bytes, reference cursor inside a block)
+and `Blue/Model/SstFileB.lean` (the same with `BlockCursor` inside a block; not run by the driver,
+proved equal to the former on builder-written files).  The correspondence check compares
 them with the real crates byte-for-byte (block bytes; a table's data blocks, index block and final
 block; the packed `SstMetadata`) and observation-for-observation (cursor programs, `load`).
 
@@ -32,9 +42,24 @@ piece named `_partial` is weaker than the property's sentence and says what is m
 opened from its bytes by the model of `Sst::new` / `Sst::load_block` that C09 uses
 (`Blue/Model/SstOpen.lean`), is a table whose cursor programs, `load` and `metadata` are the
 reference over the accepted entries.  The
-empty entry sequence is inside the theorems about bytes (`sealed_bytes_decode`) and about the
-table (`sst_cursor_refines` with no blocks); the model describes the *repaired* cursor of an empty
-block (D-7). -/
+empty entry sequence is inside the theorems about bytes (`sealed_bytes_decode`), about the block
+cursor (`sealed_empty_block_cursor`) and about the table (`sst_cursor_refines` with no blocks,
+`sst_file_roundtrip` with nothing accepted); the model describes the *repaired* cursor of an empty
+block (D-7).
+
+Added after the independent audit of the statements (docs/AUDIT_REPORT.md, C10):
+`sst_builder_rejects` / `sst_put_refuses` (the spec side `accepted` is the list of attempts answered
+`Ok`, sorted and in-limit — at the table builder, not only at `BlockBuilder`), `limits_imply_wf` /
+`accepted_wf` / `block_builder_side_conditions` / `side_conditions_from_limits` (every `Wf` / `Fits`
+side condition is derived from the builders' own checks: key / value limits and `TABLE_FULL_SIZE`),
+`sst_file_roundtrip_limits` / `sst_file_roundtrip_bcur_limits` (the round trip without those
+hypotheses and without the sealed-state parameter),
+`multi_builder_files_sorted`, `empty_block_cursor_refines` / `sealed_empty_block_cursor`,
+`table_block_cursor_refines` / `sealed_blocks_good` / `sst_file_roundtrip_bcur(_crc32c)`
+(`BlockCursor`'s restart logic composed into the table cursor, with the interval ≥ 1 hypothesis),
+a multi-entry-block non-vacuity instance of the whole round trip, and an interval-0 instance on
+which the `BlockCursor` machine and the reference machine differ.  Theorems that only unfold a
+definition of the model are labelled **model fact**. -/
 namespace Blue.Props.C10
 open Blue.Wire Blue.EntryCodec Blue.Block Blue.BlockCursor Blue.Cursor Blue.Sst Blue.SstOpen
 
@@ -62,7 +87,10 @@ theorem block_roundtrip (o : Opts) (es : List KV) (hwf : ∀ e ∈ es, e.Wf) :
     decodeAll (es.length + 1) (build o es).buffer [] = some es := Blue.Block.block_roundtrip o es hwf
 
 /-! ## the builder's decision (refusals) -/
-/-- `put` / `del` accept exactly: key ≤ `MAX_KEY_LEN`, value ≤ `MAX_VALUE_LEN`, builder below
+/-- **model fact** (the definition of `putCheck` unfolded; that `putCheck` is the decision of
+    `BlockBuilder::put` / `del` — `check_key_len`, `check_value_len`, `check_table_size`,
+    `enforce_sort_order`, in this order — is the correspondence check's business):
+    `put` / `del` accept exactly: key ≤ `MAX_KEY_LEN`, value ≤ `MAX_VALUE_LEN`, builder below
     `TABLE_FULL_SIZE`, strictly after the last accepted entry (key ascending, timestamp
     descending; an equal key and timestamp is refused) -/
 theorem builder_accepts_iff (approx : Nat) (lastKey : List Nat) (lastTs : Nat) (e : KV) :
@@ -71,14 +99,84 @@ theorem builder_accepts_iff (approx : Nat) (lastKey : List Nat) (lastTs : Nat) (
       ∧ approx < TABLE_FULL_SIZE ∧ keyRefLt lastKey lastTs e.key e.ts = true :=
   putCheck_none_iff approx lastKey lastTs e
 
-/-- whatever is attempted — out of order, duplicates, oversize — the builder ends up holding
-    exactly the accepted attempts (refused ones append nothing), and these are strictly sorted -/
+/-- `BlockBuilder`: whatever is attempted — out of order, duplicates, oversize — the builder ends up
+    holding exactly the accepted attempts (refused ones append nothing), and these are strictly
+    sorted (`acceptedOf results attempts` does not mention the builder) -/
 theorem builder_rejects (o : Opts) (atts : List KV) :
     (CBuilder.putAll o CBuilder.init atts).2.b = build o (acceptedOf (CBuilder.putAll o CBuilder.init atts).1 atts)
     ∧ Sorted (acceptedOf (CBuilder.putAll o CBuilder.init atts).1 atts) := by
   refine ⟨putAll_builds o atts CBuilder.init, ?_⟩
   have := putAll_sorted o atts CBuilder.init [] List.Pairwise.nil trivial (fun _ => ⟨rfl, rfl⟩)
   simpa using this
+
+/-- NEW (audit): **`SstBuilder` rejects out-of-order and oversize input.**  After any run of attempts
+    (one answer per attempt) the builder's `accepted` list — the spec side of
+    `sst_builder_refines_partial` / `sst_file_roundtrip`, a ghost field the model writes itself —
+    *is* the list of attempts answered `Ok` (`acceptedOfB results attempts`, defined without the
+    builder); that list is strictly sorted and every entry of it is within `MAX_KEY_LEN` /
+    `MAX_VALUE_LEN`; the builder's `(last_key, last_timestamp)` is its last entry. -/
+theorem sst_builder_rejects (o : SstOpts) (atts : List KV) :
+    (SB.putAll o SB.init atts).1.length = atts.length
+    ∧ (SB.putAll o SB.init atts).2.accepted = acceptedOfB (SB.putAll o SB.init atts).1 atts
+    ∧ Sorted (acceptedOfB (SB.putAll o SB.init atts).1 atts)
+    ∧ (∀ e ∈ acceptedOfB (SB.putAll o SB.init atts).1 atts,
+        e.key.length ≤ MAX_KEY_LEN ∧ ∀ v, e.val = some v → v.length ≤ MAX_VALUE_LEN)
+    ∧ (∀ l, (acceptedOfB (SB.putAll o SB.init atts).1 atts).getLast? = some l →
+        (SB.putAll o SB.init atts).2.lastKey = l.key ∧ (SB.putAll o SB.init atts).2.lastTs = l.ts) :=
+  Blue.Sst.sst_builder_rejects o atts
+
+/-- NEW (audit): … *with an error instead of writing it*: in any state of the table builder, an
+    attempt that is oversize, meets a full table, or is not strictly after `(last_key,
+    last_timestamp)` is answered with an error (and `SB.putAll` then continues from the unchanged
+    builder: that an `Err` leaves the real builder unchanged is compared by the check) -/
+theorem sst_put_refuses (o : SstOpts) (s : SB) (e : KV)
+    (h : ¬ (e.key.length ≤ MAX_KEY_LEN ∧ (∀ v, e.val = some v → v.length ≤ MAX_VALUE_LEN)
+      ∧ s.approxSize < TABLE_FULL_SIZE ∧ keyRefLt s.lastKey s.lastTs e.key e.ts = true)) :
+    ∃ err, s.put o e = .error (.put err) := put_refuses_iff_check h
+
+/-- NEW (audit): the wire-format side condition follows from the builder's limits: an entry within
+    `MAX_KEY_LEN` / `MAX_VALUE_LEN` with a `u64` timestamp is `Wf` … -/
+theorem limits_imply_wf (e : KV) (hts : e.ts < U64) (hk : e.key.length ≤ MAX_KEY_LEN)
+    (hv : ∀ v, e.val = some v → v.length ≤ MAX_VALUE_LEN) : e.Wf := kv_wf_of_limits e hts hk hv
+
+/-- NEW (audit): … hence the hypothesis `hwfE` of `sst_builder_refines_partial` /
+    `sst_file_roundtrip` holds for every attempt sequence with `u64` timestamps -/
+theorem accepted_wf (o : SstOpts) (atts : List KV) (hts : ∀ e ∈ atts, e.ts ≤ U64MAX) :
+    ∀ e ∈ (SB.putAll o SB.init atts).2.accepted, e.Wf := Blue.Sst.accepted_wf o atts hts
+
+/-- NEW (audit): `BlockBuilder` alone: whatever is attempted (timestamps `u64`), the accepted entries
+    fit their wire types and the block stays inside the `u32` restart format — the hypotheses
+    `hwf` / `hfit` of `sealed_bytes_decode` / `sealed_block_cursor_refines` hold for the entries a
+    builder accepted, because `put` / `del` refuse oversize keys / values and refuse at
+    `approximate_size() ≥ TABLE_FULL_SIZE` -/
+theorem block_builder_side_conditions (o : Opts) (atts : List KV) (hts : ∀ e ∈ atts, e.ts ≤ U64MAX) :
+    (∀ e ∈ acceptedOf (CBuilder.putAll o CBuilder.init atts).1 atts, e.Wf)
+    ∧ Fits (build o (acceptedOf (CBuilder.putAll o CBuilder.init atts).1 atts)) :=
+  Blue.Sst.block_builder_side_conditions o atts hts
+
+/-- NEW (audit): **every `Wf` / `Fits` side condition of the table theorems holds for every attempt
+    sequence and every builder option** (timestamps `u64`): accepted entries and index entries fit
+    their wire types, every data block and the index block stay inside the `u32` restart format —
+    `SstBuilder` puts its index entries through the same `BlockBuilder::put`.  (What the doc comment
+    "which `TABLE_FULL_SIZE` guarantees" used to assert.) -/
+theorem side_conditions_from_limits (o : SstOpts) (atts : List KV) (hts : ∀ e ∈ atts, e.ts ≤ U64MAX) (s1 : SB)
+    (hs1 : sealedState o (SB.putAll o SB.init atts).2 = .ok s1) :
+    (∀ e ∈ (SB.putAll o SB.init atts).2.accepted, e.Wf) ∧ (∀ d ∈ s1.divE, d.Wf)
+    ∧ (∀ es ∈ s1.cutE, Fits (build o.blk es)) ∧ Fits (build o.blk s1.divE) :=
+  sealed_side_conditions o atts hts s1 hs1
+
+/-- NEW (audit): **`SstMultiBuilder`** (sort order enforced across a roll-over, /repo fix 22ee7e6):
+    after any run of attempts every file — the sealed builders and the open one — is a state an
+    `SstBuilder` reaches from `new` by `put` / `del` calls (so `sst_builder_refines_partial`,
+    `sst_file_roundtrip`, `metadata_exact` apply to each file, for the entries that file accepted);
+    the files' entries concatenated in file order are exactly the attempts answered `Ok`; and that
+    concatenation is strictly sorted — the order holds *across* files.  The roll-over decision
+    (`MB.roll`: `approximate_size` against `TABLE_FULL_SIZE` and the target file size) is the
+    model's, tied by correspondence; the theorem holds whatever it decides. -/
+theorem multi_builder_files_sorted (o : SstOpts) (atts : List KV) :
+    (∀ s ∈ (MB.putAll o MB.init atts).2.files, ∃ as, s = (SB.putAll o SB.init as).2)
+    ∧ (MB.putAll o MB.init atts).2.files.flatMap (·.accepted) = acceptedOfB (MB.putAll o MB.init atts).1 atts
+    ∧ Sorted (acceptedOfB (MB.putAll o MB.init atts).1 atts) := mb_files_sorted o atts
 
 /-! ## the block cursor -/
 /-- the builder's restart points, read as entry indices, make a well-formed decoded block, for
@@ -109,7 +207,10 @@ theorem built_block_cursor_refines (o : Opts) (ho : 1 ≤ o.bytesRestartInterval
 /-- NEW: from bytes to the decoded block: `Block::new` on the sealed bytes, the forward decode
     and the offset → index translation give back exactly the entries and the builder's restart
     points as entry indices — every entry list (the empty one included), every restart policy.
-    (`Fits`: the `u32` offsets of the format suffice, which `TABLE_FULL_SIZE` guarantees.) -/
+    (`Fits` — the buffer length and the number of restarts are below 2^32, so the `u32` offsets of
+    the format suffice — is a *hypothesis* of this statement about an arbitrary entry list; for the
+    lists a builder accepted it follows from `TABLE_FULL_SIZE`: `block_builder_side_conditions`,
+    `side_conditions_from_limits`.) -/
 theorem sealed_bytes_decode (o : Opts) (es : List KV) (hwf : ∀ e ∈ es, e.Wf) (hfit : Fits (build o es)) :
     ∃ blk, Blk.new (build o es).seal = .ok blk ∧ blk.toDBlock = some ⟨es, (buildG o es).ridx⟩ :=
   toDBlock_seal o es hwf hfit
@@ -132,6 +233,23 @@ theorem interval_zero_not_wf :
     let es : List KV := [⟨[1], 1, some []⟩, ⟨[2], 1, some []⟩]
     (build o es).restarts.take 2 = [0, 0] ∧ (buildG o es).ridx.take 2 = [0, 0] :=
   Blue.Block.interval_zero_not_wf
+
+/-- NEW (audit): **the cursor of a block without entries** (`WfBlock` asks for one entry, so the
+    theorems above do not cover it): whatever the restart list and the position, every finite
+    program shows `None` after every call — the reference cursor over the empty sequence.  The
+    model is the repaired `BlockCursor` (D-7, /repo fix b7b0796). -/
+theorem empty_block_cursor_refines {E : Type} (restarts : List Nat) (pos : Pos) (p : Nat) (ops : List (Op E)) :
+    BlockCursor.run ⟨⟨[], restarts⟩, pos⟩ ops = Ref.run ⟨([] : List E), p⟩ ops
+    ∧ Ref.run ⟨([] : List E), p⟩ ops = ops.map (fun _ => none) :=
+  Blue.BlockCursor.empty_block_cursor_refines restarts pos p ops
+
+/-- NEW (audit): the sealed empty block from its bytes (`BlockBuilder::seal` with nothing put →
+    `Block::new` → decode → cursor), for every restart policy, interval 0 included -/
+theorem sealed_empty_block_cursor (o : Opts) (ops : List KOp) :
+    ∃ blk d, Blk.new (build o []).seal = .ok blk ∧ blk.toDBlock = some d ∧ d.entries = []
+      ∧ BlockCursor.run ⟨d, .first⟩ (ops.map KOp.toOp) = Ref.run ⟨([] : List KV), 0⟩ (ops.map KOp.toOp)
+      ∧ BlockCursor.run ⟨d, .first⟩ (ops.map KOp.toOp) = ops.map (fun _ => none) :=
+  Blue.Block.sealed_empty_block_cursor o ops
 
 /-! ## the table cursor -/
 /-- over non-empty blocks with separating dividers the two-level cursor shows, for every finite
@@ -235,7 +353,9 @@ theorem sst_builder_refines_partial (o : SstOpts) (atts : List KV) (c : CBuilder
       every call what the reference cursor over the accepted entries shows,
     * `load(k, ts)` is `loadSpec` (newest version of `k` not newer than `ts`, tombstone, absent:
       `load_spec_is_newest`),
-    * `metadata()` = (the setsum handed to `seal`, first and last accepted key, the final block's
+    * `metadata()` = (the setsum *parameter* handed to `seal` — not computed from the entries in
+      this model: that it is the setsum of the accepted entries is the harness's comparison —,
+      first and last accepted key, the final block's
       smallest / biggest timestamp — which `metadata_exact` shows are those of the accepted
       entries —, the length of the file),
     * the whole forward walk (`seek_to_first`, `next` to the end — what C09 renders of a pristine
@@ -256,8 +376,14 @@ theorem sst_builder_refines_partial (o : SstOpts) (atts : List KV) (c : CBuilder
       of accepted entries (`hfilter`); `Sst::load` is modelled under "no false negatives".
     * `setsum` — the digest handed to `seal`: 32 bytes (`hsetsum`).
     * the file is shorter than 2^64 bytes (`hsize`); timestamps are `u64` (`hts`); `Wf` / `Fits` as in
-      `sst_builder_refines_partial` (fields fit the wire types and the `u32` restart offsets, which
-      the size limits guarantee). -/
+      `sst_builder_refines_partial`: fields fit the wire types and the restart offsets fit `u32`.
+      These are *hypotheses* of this statement; all four (`hwfE`, `hwfD`, `hfitE`, `hfitD`) follow
+      from the builders' own checks (`side_conditions_from_limits`), and
+      `sst_file_roundtrip_limits` is this theorem without them.
+    * inside a data block this machine steps the *reference* cursor over the decoded entries —
+      `BlockCursor`'s restart logic is not in it, and the statement holds for restart interval 0
+      as well.  `sst_file_roundtrip_bcur` below is the statement with `BlockCursor` inside, and
+      has the interval ≥ 1 hypothesis. -/
 theorem sst_file_roundtrip (crc : List Nat → Nat) (o : SstOpts) (atts : List KV) (filter setsum : List Nat)
     (f : SstFile) (s1 : SB)
     (hs1 : sealedState o (SB.putAll o SB.init atts).2 = .ok s1)
@@ -313,6 +439,157 @@ theorem sst_file_roundtrip_crc32c (o : SstOpts) (atts : List KV) (filter setsum 
   Blue.SstOpen.sst_file_roundtrip_bytes o atts filter setsum f s1 hs1 hseal hts hwfE hwfD hfitE hfitD hsetsum hfilter
     hsize hbE hbF
 
+/-! ## `BlockCursor` inside the table cursor (audit: the composition) -/
+/-- NEW (audit): over ANY opened table — damaged or not — whose data blocks, wherever they load, have
+    well-formed restart points and sorted entries (`GoodD`), the table cursor that walks each data
+    block with the model of `BlockCursor` (`Opened.runB` …, `Blue/Model/SstFileB.lean`: restart
+    binary search, linear scan, reverse step through a restart interval, on the decoded block *with*
+    its restart indices) and the table cursor that steps the reference cursor there
+    (`Opened.run` …, what `sst_file_roundtrip` is about and the driver runs) make the same
+    observations, call by call, errors included: programs, `load`, `metadata`, whole walks. -/
+theorem table_block_cursor_refines (crc : List Nat → Nat) (t : Opened)
+    (hgood : ∀ i d, t.loadIdxD crc i = .ok d → GoodD d) :
+    (∀ ops : List KOp, t.runB crc t.toFirstB ops = t.run crc t.toFirst ops)
+    ∧ (∀ (k : List Nat) (ts : Nat), t.loadB crc k ts = t.load crc k ts)
+    ∧ t.metadataB crc = t.metadata crc
+    ∧ t.forwardB crc = t.forward crc ∧ t.backwardB crc = t.backward crc :=
+  ⟨fun ops => runB_eq_run crc t hgood ops ⟨0, none⟩ (goodL_none 0), loadB_eq_load crc t hgood,
+   metadataB_eq_metadata crc t hgood, (walksB_eq crc t hgood).1, (walksB_eq crc t hgood).2⟩
+
+/-- NEW (audit): every data block of a file the builder sealed is such a block — **for restart
+    intervals ≥ 1** (`ho`); hypotheses otherwise as in `sst_file_roundtrip` -/
+theorem sealed_blocks_good (crc : List Nat → Nat) (o : SstOpts)
+    (ho : 1 ≤ o.blk.bytesRestartInterval ∧ 1 ≤ o.blk.pairsRestartInterval)
+    (atts : List KV) (filter setsum : List Nat) (f : SstFile) (s1 : SB)
+    (hs1 : sealedState o (SB.putAll o SB.init atts).2 = .ok s1)
+    (hseal : (SB.putAll o SB.init atts).2.seal o filter setsum = .ok f)
+    (hts : ∀ e ∈ atts, e.ts ≤ U64MAX)
+    (hwfE : ∀ e ∈ (SB.putAll o SB.init atts).2.accepted, e.Wf) (hwfD : ∀ d ∈ s1.divE, d.Wf)
+    (hfitE : ∀ es ∈ s1.cutE, Fits (build o.blk es)) (hfitD : Fits (build o.blk s1.divE))
+    (hsetsum : setsum.length = 32)
+    (hfilter : filter.length = filterLen (SB.putAll o SB.init atts).2.count o.bloomBits)
+    (hsize : f.bytes.length < U64)
+    (hcrc : ∀ b, b ∈ f.index :: f.filter :: f.blocks → crc b = crc32c b ∧ crc32c b < 4294967296) :
+    ∃ t, openSst crc f.bytes = .ok t ∧ ∀ i d, t.loadIdxD crc i = .ok d → GoodD d :=
+  Blue.SstOpen.sealed_blocks_good crc o ho atts filter setsum f s1 hs1 hseal hts hwfE hwfD hfitE hfitD hsetsum hfilter
+    hsize hcrc
+
+/-- NEW (audit): **the file round trip with `BlockCursor` inside the data blocks.**  As
+    `sst_file_roundtrip`, with the hypothesis `ho` (both restart intervals ≥ 1 — the property's
+    quantifier; without it the builder records offset 0 twice, `interval_zero_not_wf`, and the two
+    machines differ: see the interval-0 example below): the sealed file's bytes, opened by the model
+    of `Sst::new`, every data block fetched through `Sst::load_block` as a decoded block with its
+    restart points and walked by the model of `BlockCursor`: no call fails; programs, `load`,
+    `metadata` and the whole walks are the reference over the accepted entries; and (last conjunct,
+    the bridge) the machine of `sst_file_roundtrip` shows the same, call by call. -/
+theorem sst_file_roundtrip_bcur (crc : List Nat → Nat) (o : SstOpts)
+    (ho : 1 ≤ o.blk.bytesRestartInterval ∧ 1 ≤ o.blk.pairsRestartInterval)
+    (atts : List KV) (filter setsum : List Nat) (f : SstFile) (s1 : SB)
+    (hs1 : sealedState o (SB.putAll o SB.init atts).2 = .ok s1)
+    (hseal : (SB.putAll o SB.init atts).2.seal o filter setsum = .ok f)
+    (hts : ∀ e ∈ atts, e.ts ≤ U64MAX)
+    (hwfE : ∀ e ∈ (SB.putAll o SB.init atts).2.accepted, e.Wf) (hwfD : ∀ d ∈ s1.divE, d.Wf)
+    (hfitE : ∀ es ∈ s1.cutE, Fits (build o.blk es)) (hfitD : Fits (build o.blk s1.divE))
+    (hsetsum : setsum.length = 32)
+    (hfilter : filter.length = filterLen (SB.putAll o SB.init atts).2.count o.bloomBits)
+    (hsize : f.bytes.length < U64)
+    (hcrc : ∀ b, b ∈ f.index :: f.filter :: f.blocks → crc b = crc32c b ∧ crc32c b < 4294967296) :
+    ∃ t, openSst crc f.bytes = .ok t
+      ∧ (∀ ops : List KOp, t.runB crc t.toFirstB ops
+          = (Ref.run ⟨(SB.putAll o SB.init atts).2.accepted, 0⟩ (ops.map KOp.toOp)).map .ok)
+      ∧ (∀ (k : List Nat) (ts : Nat), t.loadB crc k ts = .ok (loadSpec (SB.putAll o SB.init atts).2.accepted k ts))
+      ∧ t.metadataB crc = .ok
+          ⟨setsum,
+           (match (SB.putAll o SB.init atts).2.accepted.head? with | some e => e.key | none => []),
+           (match (SB.putAll o SB.init atts).2.accepted.getLast? with | some e => e.key | none => MAX_KEY),
+           f.fin.smallest, f.fin.biggest, f.bytes.length⟩
+      ∧ t.forwardB crc = ((SB.putAll o SB.init atts).2.accepted, none)
+      ∧ t.backwardB crc = ((SB.putAll o SB.init atts).2.accepted.reverse, none)
+      ∧ (∀ ops : List KOp, t.runB crc t.toFirstB ops = t.run crc t.toFirst ops) :=
+  Blue.SstOpen.sst_file_roundtrip_bcur crc o ho atts filter setsum f s1 hs1 hseal hts hwfE hwfD hfitE hfitD hsetsum
+    hfilter hsize hcrc
+
+/-- NEW (audit): the same with the model's own CRC32C on both sides; keys, values and the filter
+    parameter are byte strings -/
+theorem sst_file_roundtrip_bcur_crc32c (o : SstOpts)
+    (ho : 1 ≤ o.blk.bytesRestartInterval ∧ 1 ≤ o.blk.pairsRestartInterval)
+    (atts : List KV) (filter setsum : List Nat) (f : SstFile) (s1 : SB)
+    (hs1 : sealedState o (SB.putAll o SB.init atts).2 = .ok s1)
+    (hseal : (SB.putAll o SB.init atts).2.seal o filter setsum = .ok f)
+    (hts : ∀ e ∈ atts, e.ts ≤ U64MAX)
+    (hwfE : ∀ e ∈ (SB.putAll o SB.init atts).2.accepted, e.Wf) (hwfD : ∀ d ∈ s1.divE, d.Wf)
+    (hfitE : ∀ es ∈ s1.cutE, Fits (build o.blk es)) (hfitD : Fits (build o.blk s1.divE))
+    (hsetsum : setsum.length = 32)
+    (hfilter : filter.length = filterLen (SB.putAll o SB.init atts).2.count o.bloomBits)
+    (hsize : f.bytes.length < U64)
+    (hbE : ∀ e ∈ atts, KVBytes e) (hbF : Bytes filter) :
+    ∃ t, openSst crc32c f.bytes = .ok t
+      ∧ (∀ ops : List KOp, t.runB crc32c t.toFirstB ops
+          = (Ref.run ⟨(SB.putAll o SB.init atts).2.accepted, 0⟩ (ops.map KOp.toOp)).map .ok)
+      ∧ (∀ (k : List Nat) (ts : Nat), t.loadB crc32c k ts = .ok (loadSpec (SB.putAll o SB.init atts).2.accepted k ts))
+      ∧ t.metadataB crc32c = .ok
+          ⟨setsum,
+           (match (SB.putAll o SB.init atts).2.accepted.head? with | some e => e.key | none => []),
+           (match (SB.putAll o SB.init atts).2.accepted.getLast? with | some e => e.key | none => MAX_KEY),
+           f.fin.smallest, f.fin.biggest, f.bytes.length⟩
+      ∧ t.forwardB crc32c = ((SB.putAll o SB.init atts).2.accepted, none)
+      ∧ t.backwardB crc32c = ((SB.putAll o SB.init atts).2.accepted.reverse, none)
+      ∧ (∀ ops : List KOp, t.runB crc32c t.toFirstB ops = t.run crc32c t.toFirst ops) :=
+  Blue.SstOpen.sst_file_roundtrip_bcur_crc32c o ho atts filter setsum f s1 hs1 hseal hts hwfE hwfD hfitE hfitD hsetsum
+    hfilter hsize hbE hbF
+
+/-- NEW (audit): **the file round trip, side conditions discharged** (reference cursor inside a block,
+    model CRC32C on both sides).  For every attempt sequence with `u64` timestamps and byte-string
+    keys / values, every builder option, a filter parameter of the length `Filter::new` gives (byte
+    string) and a 32-byte setsum parameter: if `seal` succeeds and the file is shorter than 2^64
+    bytes, its bytes open, no call fails, and programs / `load` / `metadata` / whole walks are the
+    reference over the accepted entries (= the attempts answered `Ok`, `sst_builder_rejects`).
+    No `Wf` / `Fits` hypothesis and no sealed-state parameter remain. -/
+theorem sst_file_roundtrip_limits (o : SstOpts) (atts : List KV) (filter setsum : List Nat) (f : SstFile)
+    (hseal : (SB.putAll o SB.init atts).2.seal o filter setsum = .ok f)
+    (hts : ∀ e ∈ atts, e.ts ≤ U64MAX)
+    (hsetsum : setsum.length = 32)
+    (hfilter : filter.length = filterLen (SB.putAll o SB.init atts).2.count o.bloomBits)
+    (hsize : f.bytes.length < U64)
+    (hbE : ∀ e ∈ atts, KVBytes e) (hbF : Bytes filter) :
+    ∃ t, openSst crc32c f.bytes = .ok t
+      ∧ (∀ ops : List KOp, t.run crc32c t.toFirst ops
+          = (Ref.run ⟨(SB.putAll o SB.init atts).2.accepted, 0⟩ (ops.map KOp.toOp)).map .ok)
+      ∧ (∀ (k : List Nat) (ts : Nat), t.load crc32c k ts = .ok (loadSpec (SB.putAll o SB.init atts).2.accepted k ts))
+      ∧ t.metadata crc32c = .ok
+          ⟨setsum,
+           (match (SB.putAll o SB.init atts).2.accepted.head? with | some e => e.key | none => []),
+           (match (SB.putAll o SB.init atts).2.accepted.getLast? with | some e => e.key | none => MAX_KEY),
+           f.fin.smallest, f.fin.biggest, f.bytes.length⟩
+      ∧ t.forward crc32c = ((SB.putAll o SB.init atts).2.accepted, none)
+      ∧ t.backward crc32c = ((SB.putAll o SB.init atts).2.accepted.reverse, none) :=
+  Blue.SstOpen.sst_file_roundtrip_limits o atts filter setsum f hseal hts hsetsum hfilter hsize hbE hbF
+
+/-- NEW (audit): **the same with `BlockCursor` inside the data blocks** — the only extra hypothesis
+    is `ho`, both restart intervals ≥ 1 (the property's quantifier) -/
+theorem sst_file_roundtrip_bcur_limits (o : SstOpts)
+    (ho : 1 ≤ o.blk.bytesRestartInterval ∧ 1 ≤ o.blk.pairsRestartInterval)
+    (atts : List KV) (filter setsum : List Nat) (f : SstFile)
+    (hseal : (SB.putAll o SB.init atts).2.seal o filter setsum = .ok f)
+    (hts : ∀ e ∈ atts, e.ts ≤ U64MAX)
+    (hsetsum : setsum.length = 32)
+    (hfilter : filter.length = filterLen (SB.putAll o SB.init atts).2.count o.bloomBits)
+    (hsize : f.bytes.length < U64)
+    (hbE : ∀ e ∈ atts, KVBytes e) (hbF : Bytes filter) :
+    ∃ t, openSst crc32c f.bytes = .ok t
+      ∧ (∀ ops : List KOp, t.runB crc32c t.toFirstB ops
+          = (Ref.run ⟨(SB.putAll o SB.init atts).2.accepted, 0⟩ (ops.map KOp.toOp)).map .ok)
+      ∧ (∀ (k : List Nat) (ts : Nat), t.loadB crc32c k ts = .ok (loadSpec (SB.putAll o SB.init atts).2.accepted k ts))
+      ∧ t.metadataB crc32c = .ok
+          ⟨setsum,
+           (match (SB.putAll o SB.init atts).2.accepted.head? with | some e => e.key | none => []),
+           (match (SB.putAll o SB.init atts).2.accepted.getLast? with | some e => e.key | none => MAX_KEY),
+           f.fin.smallest, f.fin.biggest, f.bytes.length⟩
+      ∧ t.forwardB crc32c = ((SB.putAll o SB.init atts).2.accepted, none)
+      ∧ t.backwardB crc32c = ((SB.putAll o SB.init atts).2.accepted.reverse, none)
+      ∧ (∀ ops : List KOp, t.runB crc32c t.toFirstB ops = t.run crc32c t.toFirst ops) :=
+  Blue.SstOpen.sst_file_roundtrip_bcur_limits o ho atts filter setsum f hseal hts hsetsum hfilter hsize hbE hbF
+
 /-- NEW: the pieces of the open, each a statement about bytes: `FinalBlock::unpack` and
     `BlockMetadata::unpack` read back what `seal` / `flush_block` packed, and the `i`-th index
     entry's `(start, limit)` is the extent of the `i`-th data block's frame in the file -/
@@ -357,7 +634,8 @@ theorem metadata_exact (o : SstOpts) (atts : List KV) (hts : ∀ e ∈ atts, e.t
   exact ⟨h1, h2, h3, h4, seal_fileSize hi h, hss⟩
 
 /-! ## the code as found -/
-/-- `SstMultiBuilder` as found: each file's builder knows only its own keys, so after a roll-over
+/-- (one closed instance, by evaluation — not a general statement)
+    `SstMultiBuilder` as found: each file's builder knows only its own keys, so after a roll-over
     an entry that sorts before the previous file's last key is written (first two conjuncts);
     with the order kept across files it is refused (third).  File size 0 rolls over at every put. -/
 theorem multi_builder_as_found_writes_unordered :
@@ -451,6 +729,114 @@ example : loadSpec sample [97] 8 = .tombstone ∧ loadSpec sample [97] 7 = .valu
 /-- the builders' sentinel: the empty key at the largest timestamp cannot be an entry -/
 example : putCheck 0 [] U64MAX ⟨[], U64MAX, none⟩ = some .sortOrder := by decide
 
+/-! ### audit: richer witnesses -/
+/-- the side conditions `hwfD`, `hfitE`, `hfitD`, `hsize` on the one-entry-per-block instance above
+    (they had no witness) -/
+example : (match sealedState sampleOpts (SB.putAll sampleOpts SB.init sample).2, sampleFile with
+    | .ok s1, some f => sideB sampleOpts s1 f | _, _ => false) = true := by decide +kernel
+
+/-- a **multi-entry-block instance**: restart after every second pair, blocks of about 40 bytes.
+    `sample` is cut into blocks of 2, 3 and 1 entries; the middle block has a restart point inside
+    (entry 2, byte offset 20) and an entry with a shared key prefix (`shared = 1`) -/
+def multiOpts : SstOpts := ⟨⟨1000, 2⟩, 40, 17, 0⟩
+example : (match sealedState multiOpts (SB.putAll multiOpts SB.init sample).2 with
+    | .ok s1 => (s1.cutE.map List.length, s1.cutE.map (fun es => (buildG multiOpts.blk es).ridx),
+        s1.cutE.map (fun es => (build multiOpts.blk es).restarts), s1.divE.map keyTs)
+    | .error _ => ([], [], [], []))
+    = ([2, 3, 1], [[0], [0, 2], [0]], [[0], [0, 20], [0]], [([97], 9), ([97, 0], 5), ([98], 5)]) := by decide +kernel
+example : sharedLen [97] [97] = 1
+    ∧ (wireEntry 1 ⟨[97], 0, some [2]⟩ = .put ⟨1, [], 0, [2]⟩) := by decide
+/-- the refusals at the table builder: a duplicate, an entry before the last one, an oversize key
+    (the answers; the builder then holds exactly the three accepted attempts) -/
+example : ((SB.putAll multiOpts SB.init
+      [⟨[5], 3, some []⟩, ⟨[5], 3, some [1]⟩, ⟨[4], 9, none⟩, ⟨[5], 2, none⟩, ⟨List.replicate 16385 0, 1, none⟩,
+       ⟨[6], 1, some [7]⟩]).1,
+    (SB.putAll multiOpts SB.init
+      [⟨[5], 3, some []⟩, ⟨[5], 3, some [1]⟩, ⟨[4], 9, none⟩, ⟨[5], 2, none⟩, ⟨List.replicate 16385 0, 1, none⟩,
+       ⟨[6], 1, some [7]⟩]).2.accepted.map keyTs)
+    = ([none, some (.put .sortOrder), some (.put .sortOrder), none, some (.put .keyTooLarge), none],
+       [([5], 3), ([5], 2), ([6], 1)]) := by decide +kernel
+
+/-- the side conditions of the older statements on the multi-entry-block instance -/
+example : (match sealedState multiOpts (SB.putAll multiOpts SB.init sample).2,
+      (SB.putAll multiOpts SB.init sample).2.seal multiOpts zeros32 zeros32 with
+    | .ok s1, .ok f => sideB multiOpts s1 f | _, _ => false) = true := by decide +kernel
+
+/-- **every hypothesis of `sst_file_roundtrip_bcur_limits` (and of `sst_file_roundtrip_limits`) holds
+    at once on the multi-entry-block instance**, and the conclusion is instantiated: the file seals,
+    opens, and with `BlockCursor` inside the blocks as with the reference cursor every program
+    shows the reference over `sample`; `load` is `loadSpec`; the whole walks are `sample` and its
+    reverse -/
+theorem multi_block_instance :
+    ∃ f t, (SB.putAll multiOpts SB.init sample).2.seal multiOpts zeros32 zeros32 = .ok f
+      ∧ openSst crc32c f.bytes = .ok t
+      ∧ (∀ ops : List KOp, t.runB crc32c t.toFirstB ops = (Ref.run ⟨sample, 0⟩ (ops.map KOp.toOp)).map .ok)
+      ∧ (∀ ops : List KOp, t.run crc32c t.toFirst ops = (Ref.run ⟨sample, 0⟩ (ops.map KOp.toOp)).map .ok)
+      ∧ (∀ (k : List Nat) (ts : Nat), t.loadB crc32c k ts = .ok (loadSpec sample k ts))
+      ∧ t.forwardB crc32c = (sample, none) ∧ t.backwardB crc32c = (sample.reverse, none) := by
+  have hchk : (match (SB.putAll multiOpts SB.init sample).2.seal multiOpts zeros32 zeros32 with
+      | .ok f => decide (f.bytes.length < U64) | .error _ => false) = true := by decide +kernel
+  cases hf : (SB.putAll multiOpts SB.init sample).2.seal multiOpts zeros32 zeros32 with
+  | error e => rw [hf] at hchk; cases hchk
+  | ok f =>
+    rw [hf] at hchk
+    have hsize : f.bytes.length < U64 := by simpa using hchk
+    have hts : ∀ e ∈ sample, e.ts ≤ U64MAX := by decide
+    have hacc : (SB.putAll multiOpts SB.init sample).2.accepted = sample := by decide +kernel
+    have hbE : ∀ e ∈ sample, KVBytes e := by
+      intro e he
+      simp only [sample, List.mem_cons, List.mem_nil_iff, or_false] at he
+      rcases he with rfl | rfl | rfl | rfl | rfl | rfl <;>
+        (refine ⟨by unfold Bytes; decide, ?_⟩; intro v hv; cases hv <;> (unfold Bytes; decide))
+    obtain ⟨t, ho, r1, r2, _, r4, r5, r6⟩ := Blue.Props.C10.sst_file_roundtrip_bcur_limits multiOpts
+      ⟨by decide, by decide⟩ sample zeros32 zeros32 f hf hts (by decide) (by decide +kernel) hsize hbE
+      (by unfold Bytes zeros32; decide)
+    rw [hacc] at r1 r2 r4 r5
+    exact ⟨f, t, rfl, ho, r1, fun ops => by rw [← r6 ops]; exact r1 ops, r2, r4, r5⟩
+
+/-- the same instance evaluated: a program with reversals and seeks through both machines -/
+example : (match (SB.putAll multiOpts SB.init sample).2.seal multiOpts zeros32 zeros32 with
+    | .ok f =>
+      (match openSst crc32c f.bytes with
+       | .ok t =>
+         ((t.runB crc32c t.toFirstB [.first, .next, .next, .next, .seek [97, 0], .prev, .prev, .last, .prev, .seek [99], .prev]).map
+           (fun r => match r with | Except.ok (some e) => some (e.key, e.ts) | _ => none),
+          decide ((t.runB crc32c t.toFirstB [.first, .next, .next, .next, .seek [97, 0], .prev, .prev, .last, .prev, .seek [99], .prev]).length
+            = (t.run crc32c t.toFirst [.first, .next, .next, .next, .seek [97, 0], .prev, .prev, .last, .prev, .seek [99], .prev]).length))
+       | .error _ => ([], false))
+    | .error _ => ([], false))
+    = ([none, some ([], 7), some ([97], 9), some ([97], 8), some ([97, 0], 5), some ([97], 0), some ([97], 8), none,
+        some ([98], 5), none, some ([98], 5)], true) := by
+  decide +kernel
+
+/-- **restart interval 0** (outside the property; `ho` fails): the builder records offset 0 twice
+    (`interval_zero_not_wf`), the file still seals and opens, the machine of `sst_file_roundtrip`
+    (reference cursor inside a block) still shows the entries in order — but the machine with
+    `BlockCursor` inside shows the first entry twice: the two differ, so `ho` is needed in
+    `sst_file_roundtrip_bcur` and `sst_file_roundtrip` alone says nothing about the restart logic -/
+def zeroOpts : SstOpts := ⟨⟨0, 0⟩, 64, 17, 0⟩
+example : (match (SB.putAll zeroOpts SB.init sample).2.seal zeroOpts zeros32 zeros32 with
+    | .ok f =>
+      (match openSst crc32c f.bytes with
+       | .ok t =>
+         ((t.run crc32c t.toFirst [.first, .next, .next, .next]).map
+            (fun r => match r with | Except.ok (some e) => some (e.key, e.ts) | _ => none),
+          (t.runB crc32c t.toFirstB [.first, .next, .next, .next]).map
+            (fun r => match r with | Except.ok (some e) => some (e.key, e.ts) | _ => none))
+       | .error _ => ([], []))
+    | .error _ => ([], []))
+    = ([none, some ([], 7), some ([97], 9), some ([97], 8)], [none, some ([], 7), some ([], 7), some ([97], 9)]) := by
+  decide +kernel
+
+/-- the multi-builder on a target file size of 0 (a roll-over before every put): three files, the
+    entries in order across them, the out-of-order attempt refused -/
+example : ((MB.putAll ⟨⟨16, 16⟩, 4096, 17, 0⟩ MB.init
+      [⟨[98], 1, some []⟩, ⟨[97], 1, some []⟩, ⟨[98], 0, none⟩, ⟨[99], 5, some [1]⟩]).1,
+    (MB.putAll ⟨⟨16, 16⟩, 4096, 17, 0⟩ MB.init
+      [⟨[98], 1, some []⟩, ⟨[97], 1, some []⟩, ⟨[98], 0, none⟩, ⟨[99], 5, some [1]⟩]).2.files.map
+        (fun s => s.accepted.map keyTs))
+    = ([none, some (.put .sortOrder), none, none], [[([98], 1)], [([98], 0)], [([99], 5)]]) := by decide +kernel
+
 end Blue.Props.C10
 
 #print axioms Blue.Props.C10.limits_from_source
@@ -459,6 +845,13 @@ end Blue.Props.C10
 #print axioms Blue.Props.C10.block_roundtrip
 #print axioms Blue.Props.C10.builder_accepts_iff
 #print axioms Blue.Props.C10.builder_rejects
+#print axioms Blue.Props.C10.sst_builder_rejects
+#print axioms Blue.Props.C10.sst_put_refuses
+#print axioms Blue.Props.C10.limits_imply_wf
+#print axioms Blue.Props.C10.accepted_wf
+#print axioms Blue.Props.C10.block_builder_side_conditions
+#print axioms Blue.Props.C10.side_conditions_from_limits
+#print axioms Blue.Props.C10.multi_builder_files_sorted
 #print axioms Blue.Props.C10.build_wf
 #print axioms Blue.Props.C10.restarts_are_entry_offsets
 #print axioms Blue.Props.C10.block_cursor_refines
@@ -466,6 +859,8 @@ end Blue.Props.C10
 #print axioms Blue.Props.C10.sealed_bytes_decode
 #print axioms Blue.Props.C10.sealed_block_cursor_refines
 #print axioms Blue.Props.C10.interval_zero_not_wf
+#print axioms Blue.Props.C10.empty_block_cursor_refines
+#print axioms Blue.Props.C10.sealed_empty_block_cursor
 #print axioms Blue.Props.C10.sst_cursor_refines
 #print axioms Blue.Props.C10.divide_keys_between
 #print axioms Blue.Props.C10.minimal_successor_gt
@@ -477,8 +872,15 @@ end Blue.Props.C10
 #print axioms Blue.Props.C10.sst_builder_refines_partial
 #print axioms Blue.Props.C10.sst_file_roundtrip
 #print axioms Blue.Props.C10.sst_file_roundtrip_crc32c
+#print axioms Blue.Props.C10.table_block_cursor_refines
+#print axioms Blue.Props.C10.sealed_blocks_good
+#print axioms Blue.Props.C10.sst_file_roundtrip_bcur
+#print axioms Blue.Props.C10.sst_file_roundtrip_bcur_crc32c
+#print axioms Blue.Props.C10.sst_file_roundtrip_limits
+#print axioms Blue.Props.C10.sst_file_roundtrip_bcur_limits
 #print axioms Blue.Props.C10.final_block_and_index_entries_read_back
 #print axioms Blue.Props.C10.divide_keys_assert_never_fires
 #print axioms Blue.Props.C10.metadata_keys
 #print axioms Blue.Props.C10.metadata_exact
 #print axioms Blue.Props.C10.multi_builder_as_found_writes_unordered
+#print axioms Blue.Props.C10.multi_block_instance
